@@ -558,7 +558,7 @@ func init() {
 		ID: "C10", Level: "exploration", Plan: plan, Run: run, MaxParallel: 16, CaseTimeout: 300e9,
 		Rule: "RRsets of every signable registry type (1..6 records, repeated records, mixed case, escaped names, wildcard and multi-label owners) x RSASHA1/256(1024,2048)/512, ECDSA P-256/P-384, Ed25519 with keys generated per run; " +
 			"oracle = independent verifier (own RFC 4034 s.3.1.8.1/6.2/6.3 + RFC 6840 s.5.1 canonical form, own RFC 3110/6605/8080 key decoding, Go crypto): Sign output must verify independently and with Verify; harness-made signatures over the model form must be accepted; " +
-			"irrelevant variants (order, repeats, TTL, owner case, s.6.2 name case, wildcard expansions of 1..3 labels) must verify; ~60 single-field alterations of RRSIG/DNSKEY/RRset and signature/key bit flips (all signature bits in thorough): Verify==nil implies the model accepts; non-trivial = distinct signed RRset",
+			"irrelevant variants (order, repeats, TTL, owner case, s.6.2 name case, wildcard expansions of 1..3 labels, RFC 1035 \\X spellings of letters in owner labels and embedded names - verified and signed from) must verify; RRSIG/DNSKEY owners differing by 0x20 in a non-letter (^~ [{ ]} `@) must not; ~60 single-field alterations of RRSIG/DNSKEY/RRset and signature/key bit flips (all signature bits in thorough): Verify==nil implies the model accepts; non-trivial = distinct signed RRset",
 		Assumptions: []string{"NXT, SIG and A6 RRsets are not generated (obsolete)", "signature validity windows are not part of Verify (see C17 for ValidityPeriod)"},
 		MinObserved: []string{"signed", "harness_signatures", "alterations_rejected"},
 	})
